@@ -205,7 +205,7 @@ RegionsOrdered(ev, dw, liw) ==
      LET w(t) == IF t <= 2 THEN dw ELSE liw IN
      /\ \A t \in 1..3 : ev.ex[t][1] + ev.ex[t][2] * w(t) <= ev.ex[t + 1][1]
      /\ ev.ex[4][1] + ev.ex[4][2] * liw <= ev.st[3]
-     /\ \A t \in 1..2 : (ev.ex[t][1] + ev.al) % 8 = 0
+     /\ \A t \in 1..2 : (ev.ex[t][1] + ev.al) % (IF dw >= 8 THEN 8 ELSE 4) = 0        \* values aligned to their own size
 MemVerdict(pm, ev, ty, liw) ==
   LET dw == DWordOf(ty)
       e == ev.e
